@@ -176,6 +176,8 @@ pub fn clear_key_overrides() {
 /// The dictated key of `peer`, if any.
 pub fn key_override(peer: &crate::PeerId) -> Option<[u8; 32]> {
     KEY_OVERRIDES.with(|m| m.borrow().get(peer).copied())
+}
+
 thread_local! {
     /// Logical clock of the C09 adapter: (`std` instant, tokio instant) taken at the same moment.
     static LOGICAL_CLOCK: std::cell::Cell<Option<(std::time::Instant, tokio::time::Instant)>> =
